@@ -336,12 +336,15 @@ def update_conservation(chk, rule, mods, name_re, block_re, block_size=1024):
             bad = None
             BS = block_size
             grid = []
-            for P in (0, 1, 500, BS - 1):
-                for L in sorted({1, 2, BS - P - 1, BS - P, BS - P + 1, BS, BS + 1, 2 * BS - P, 2 * BS - P + 1, 3 * BS + 7, 4 * BS}):
-                    if L > 0:
-                        grid.append((P, L))
-            for (P, L) in grid:
-                T0 = 3 * BS + P
+            # K = whole blocks already hashed before this call: the first block of a stream (K = 0) and a later one
+            # (K = 3) are both replayed, so a special case keyed on the running total is met at both ends
+            for K in (0, 3):
+                for P in (0, 1, 500, BS - 16, BS - 7, BS - 1):
+                    for L in sorted({1, 2, BS - P - 1, BS - P, BS - P + 1, BS, BS + 1, 2 * BS - P, 2 * BS - P + 1, 3 * BS + 7, 4 * BS}):
+                        if L > 0:
+                            grid.append((K, P, L))
+            for (K, P, L) in grid:
+                T0 = K * BS + P
                 args = [None] * len(F.args)
                 args[ctx_n] = ("p", "ctx", 0)
                 args[buf_n] = ("p", "in", 0)
